@@ -1009,7 +1009,10 @@ class Interp:
         return Ptr(None)
 
     def e_StringLiteral(self, n):
-        return self.k.string_literal(self, n.get("value", ""))
+        v = n.get("value", "")
+        if len(v) >= 2 and v[0] == '"' and v[-1] == '"':
+            v = v[1:-1]  # clang prints the literal with its quotes
+        return self.k.string_literal(self, v)
 
     def e_CharacterLiteral(self, n):
         return z3.IntVal(int(n["value"]))
